@@ -124,7 +124,7 @@ class Universe:
         # a call that cannot answer yet raises and must leave no trace
         self.early_introspection = _os.environ.get("VERIF_EARLY_INTROSPECT") == "1"
         if self.early_introspection:
-            src += "\ndef _verif_early(cls):\n    for m in ('get_property_fields', 'get_child_fields'):\n        try:\n            getattr(cls, m)()\n        except Exception:\n            pass\n\n"
+            src += "\ndef _verif_early(cls):\n    for m in ('get_property_fields', 'get_child_fields'):\n        try:\n            list(getattr(cls, m)())\n        except Exception:\n            pass\n\n"
         for s in specs:
             src += self.render_class(s, frozen) + "\n"
             if self.early_introspection:
